@@ -201,7 +201,7 @@ def run(ctx):
                          "activations float / qint8 / qfloat8 e4m3 / e5m2, weights qint8 / qfloat8 per-axis or per-tensor, bias on/off — bit-exact against the model; kernels and CPU/CUDA/MPS route functions called directly; "
                          "(ii) realistic magnitudes incl. saturating codes and low-bit weights against a float64 reference. distinct = (dtype, act kind, weight qtype/axis, shapes, bias); non-trivial = all")
     ROUTES = route_functions()
-    n_exact = 300 if not ctx.thorough else 3000
+    n_exact = 300 if not ctx.thorough else 6000
     lines, expect, meta = [], [], []
     rlines, rexpect = [], []
     for ci in range(n_exact):
@@ -261,7 +261,7 @@ def run(ctx):
                                                                         "max_diff": float((v.double() - ref.double()).abs().max()) if v.shape == ref.shape else None}))
             ctx.count("variant:" + name)
     # ---- aten.mm / bmm on two quantized operands, all axis combinations, shapes on both sides of the integer route
-    for _ in range(40 if not ctx.thorough else 400):
+    for _ in range(40 if not ctx.thorough else 2000):
         F = rng.choice(["f32", "f16", "bf16"])
         dt = fmts()[F][0]
         n, m, p = rng.choice([(24, 24, 24), (32, 32, 48), (24, 16, 8), (17, 8, 8), (24, 12, 8), (5, 7, 3), (64, 8, 16)])
@@ -294,7 +294,7 @@ def run(ctx):
                                             "max_excess": float(((od.double() - exact).abs() - env).max()) if od.shape == exact.shape else None}))
     # ---- QBits weights (dequantize + float matmul), exact sets
     from optimum.quanto import QBitsTensor
-    for _ in range(40 if not ctx.thorough else 400):
+    for _ in range(40 if not ctx.thorough else 2000):
         F = rng.choice(["f32", "f16", "bf16"])
         dt = fmts()[F][0]
         bits = rng.choice([2, 4])
@@ -317,7 +317,7 @@ def run(ctx):
         meta.append(("linear-qbits", F, "float", f"int{bits}"))
         envelope_check(ctx, "linear-qbits", out, x, w, bias)
     # ---- realistic magnitudes
-    n_real = 150 if not ctx.thorough else 2000
+    n_real = 150 if not ctx.thorough else 8000
     for _ in range(n_real):
         F = rng.choice(["f32", "f16", "bf16"])
         dt = fmts()[F][0]
